@@ -12,6 +12,7 @@ CHECKS = {
     "C06": {
         "pkgs": ["./pkg/netceptor"],
         "schedule_harnesses": ["Verif_C06_concurrent_deliveries"],
+        "no_native": ["Verif_C06_seen_table_keeps_entries_for_the_full_expiry_time"],
         "thorough": {"maxpaths": 400000},
         "bounds": "one update (and one re-delivery) from an arbitrary node state over the universe {A=self,B,C,D}; epochs, sequences, "
                   "costs arbitrary 64-bit/real values; 7 edges with symbolic presence; update lists <= 3 neighbours",
@@ -65,6 +66,7 @@ CHECKS = {
     "C18": {
         "pkgs": ["./pkg/netceptor"],
         "schedule_harnesses": ["Verif_C18_close_during_advertisement_pass"],
+        "no_native": ["Verif_C18_withdrawal_survives_a_stalled_link"],
         "bounds": "one advertisement/withdrawal with arbitrary timestamp, type, tag against a table that holds / does not hold / has seen withdrawn "
                   "the same or another (node, service); two and three messages about one service with distinct timestamps in every delivery order; "
                   "one local advertised listener opened and closed through the real API; MESH: three real nodes in a line (real runProtocol, in-order "
@@ -83,6 +85,7 @@ CHECKS = {
     },
     "C12": {
         "pkgs": ["./pkg/netceptor"],
+        "schedule_harnesses": ["Verif_C12_rules_replaced_during_evaluation"],
         "bounds": {
             "quick": "regex rules: 59 patterns of a bounded grammar over {a,b,.,[ab],[^a],(?i),*,+,?,|,(),^,$} x every ASCII subject of 0..3 bytes x 4 fields; "
                      "literal rules: 2 rules, 5 field subsets each, arbitrary literals, 3 actions, 3 key spellings, 6 representative packets; malformed: 12 "
@@ -131,7 +134,7 @@ CHECKS = {
     },
     "C20": {
         "pkgs": ["./pkg/utils", "./pkg/netceptor", "./pkg/certificates"],
-        "no_native": ["Verif_C20_only_the_leaf_names_the_peer", "Verif_C20_request_names_exactly_what_was_asked"],
+        "no_native": ["Verif_C20_only_the_leaf_names_the_peer", "Verif_C20_request_names_exactly_what_was_asked", "Verif_C20_tooling_passes_node_ids_through"],
         "bounds": {
             "quick": "0..2 node IDs; one ID: lengths {0,1,2,50,110..116,127,128,129,200,240..244,255,256,300}, two IDs: lengths from {1,112,113,128,256}; "
                      "first/last content byte arbitrary ASCII; 0..1 DNS name (2 bytes), 0..1 IPv4/IPv6 address (arbitrary bytes)",
@@ -159,7 +162,8 @@ CHECKS = {
         "schedule_harnesses": ["Verif_C04_rescan_while_runner_writes"],
         "assumptions": ["file-system model: every state-changing operation (create, truncate, write, mkdir, remove) is atomic (process kill, not power loss)",
                         "unit IDs fixed by the harness (randomness stubbed)"],
-        "outside": ["the detached runner process and real process signalling", "fsync / power loss", "kernel-level atomicity of a single write",
+        "outside": ["the detached runner process and real process signalling", "file descriptors inherited by child processes (the control-socket lock "
+                    "held by a surviving runner - seeded change C04e is NOT detected)", "fsync / power loss", "kernel-level atomicity of a single write",
                     "kubernetes and python units", "repeated crash/restart cycles beyond one"],
         "level_text": "Bounded symbolic execution of the real status-file code (Save/Load/UpdateFullStatus/lockStatusFile), AllocateUnit / "
                       "AllocateRemoteUnit, scanForUnit/findUnit and the Restart methods over a file-system model with a crash injected before "
@@ -171,7 +175,7 @@ CHECKS = {
         "pkgs": ["./pkg/workceptor"],
         "bounds": "2 independent writers + 1 reader on one status file, and 2 daemon goroutines sharing one unit + the runner process, every "
                   "file-system operation a scheduling point, 2 pre-emptions; arbitrary numeric increments",
-        "schedule_harnesses": ["Verif_C14_rmw_serialisable", "Verif_C14_shared_unit", "Verif_C14_rescan_while_runner_writes", "Verif_C14_stdout_size_vs_state_writer"],
+        "schedule_harnesses": ["Verif_C14_rmw_serialisable", "Verif_C14_shared_unit", "Verif_C14_rescan_while_runner_writes", "Verif_C14_stdout_size_vs_state_writer", "Verif_C14_state_update_leaves_the_size_alone"],
         "assumptions": ["lockedfile model: exclusive advisory lock per open file description, blocking, released on close"],
         "outside": ["real flock semantics on network file systems", "more than 3 concurrent actors", "schedules needing more than 2 pre-emptions"],
         "level_text": "Bounded symbolic execution with schedule exploration of the real UpdateFullStatus/UpdateBasicStatus/Load/Save on the "
@@ -183,7 +187,7 @@ CHECKS = {
         "bounds": "two allocations with an ARBITRARY 8-character identifier stream against an index and a data directory holding other units (at most 3 "
                   "collisions in a row); two concurrent allocations drawing the same identifier, 2 pre-emptions; release (forced or not, removal "
                   "failing or not); restart on a command-unit record in each of the 5 states with arbitrary output size, then release",
-        "no_native": ["Verif_C13_unique_id", "Verif_C13_cancel_stops_the_process"],
+        "no_native": ["Verif_C13_unique_id", "Verif_C13_cancel_stops_the_process", "Verif_C13_cancel_after_an_early_cancel"],
         "schedule_harnesses": ["Verif_C13_concurrent_allocation"],
         "assumptions": ["processes are not modelled: exec.Cmd.Start fails, no runner process writes concurrently"],
         "outside": ["status regressions caused by the detached runner process racing with the daemon", "kubernetes / python units",
@@ -211,7 +215,7 @@ CHECKS = {
     },
     "C19": {
         "pkgs": ["./pkg/workceptor"],
-        "no_native": ["Verif_C19_remote_refusal_discloses_nothing"],
+        "no_native": ["Verif_C19_remote_refusal_discloses_nothing", "Verif_C19_only_a_real_profile_counts_as_tls"],
         "bounds": "remote submission with 1-3 parameters whose names are arbitrary printable-ASCII strings of 8, 7 and 3 bytes (every letter case "
                   "of secret_x and secret_), arbitrary 1-byte values, with / without a TLS client profile; status, list and status-after-restart",
         "assumptions": ["parameter names are ASCII (Unicode case folding outside the claim)"],
@@ -234,7 +238,8 @@ CHECKS = {
         "no_native": ["Verif_C05_remote_mirror"],
         "assumptions": ["timers fire only when every goroutine is blocked (poll intervals are not measured)",
                         "the runner records the final StdoutSize correctly (C13/C04)"],
-        "outside": ["the status half of the remote mirror (monitorRemoteStatus) and the transport below connectToRemote (a model of the remote control "
+        "outside": ["the TEXT of status replies (the JSON model keeps values, not text: seeded change C05e, a substring test on the reply, is NOT detected)",
+                    "the status half of the remote mirror (monitorRemoteStatus) and the transport below connectToRemote (a model of the remote control "
                     "service stands in for netceptor.Conn)", "remote units still running while mirrored", "negative start offsets", "outputs longer than 5 bytes and reads shorter than the data available"],
         "level_text": "Bounded symbolic execution of the real GetResults reader goroutine (with its stat-watcher) over the file-system model with a "
                       "growing output file: the bytes delivered are exactly file[offset:], the stream stays open while the unit runs or while "
@@ -307,7 +312,7 @@ CHECKS = {
         "bounds": "a datagram socket (advertising or not) closed 1-3 times, then a late packet, then re-binding the name, then node shutdown; two "
                   "deliveries + close (+ optional reader) on one socket under every schedule with 2 pre-emptions; one stream dial over a stubbed QUIC "
                   "transport failing at the handshake / at stream opening / succeeding and then closed in 4 different orders",
-        "no_native": ["Verif_C17_dial_releases_socket"],
+        "no_native": ["Verif_C17_dial_releases_socket", "Verif_C17_failed_dial_leaves_nothing_behind"],
         "schedule_harnesses": ["Verif_C17_close_vs_deliveries"],
         "assumptions": ["quic-go replaced by stubs in the dial harness (connection context ends when CloseWithError is called or the harness ends it)"],
         "outside": ["goroutines inside quic-go", "growth over long histories (per-operation release is decided)", "shutdown of backends",
